@@ -373,6 +373,33 @@ template<Shape S, bool OPEN> static std::string runWE(int hm, const std::vector<
 }
 #endif
 
+// ------------------------------------------------------------------ unordered_multimap with identity-tagged keys: == only
+#if GROUP == 2
+#ifdef IMPL_MOMO
+typedef momo::stdish::unordered_multimap<KI, int, KHash, KEq> MMK;
+typedef momo::stdish::unordered_multimap_open<KI, int, KHash, KEq> MMKO;
+#else
+typedef std::unordered_multimap<KI, int, KHash, KEq> MMK;
+typedef MMK MMKO;
+#endif
+template<class M> static std::string runMMK(const Words& head) {   // mmk|mmko hm k.id.v ... / k.id.v ... [/ erase_if modulus residue]
+	int hm = I(head, 1); M a(0, KHash(hm), KEq()), b(0, KHash(hm), KEq()); M* cur = &a; size_t i = 2; int m = 0, r = 0;
+	for (; i < head.size(); ++i) {
+		if (head[i] == "/") { if (cur == &a) { cur = &b; continue; } m = I(head, i + 1); r = I(head, i + 2); break; }
+		int k = 0, id = 0, v = 0; sscanf(head[i].c_str(), "%d.%d.%d", &k, &id, &v); cur->emplace(KI(k, id), v); }
+	if (m > 0) {   // leave value-less keys behind in momo: erase_if on both
+		auto pred = [m, r](int k) { return k % m == r; };
+#ifdef IMPL_MOMO
+		erase_if(a, [&pred](const auto& p) { return pred(p.first.k); }); erase_if(b, [&pred](const auto& p) { return pred(p.first.k); });
+#else
+		for (M* x : { &a, &b }) for (auto it = x->begin(); it != x->end(); ) { if (pred(it->first.k)) it = x->erase(it); else ++it; }
+#endif
+	}
+	std::ostringstream out; out << int(a == b) << int(a != b) << int(b == a) << int(b != a) << " " << a.size() << " " << b.size();
+	return out.str();
+}
+#endif
+
 // ------------------------------------------------------------------ dispatch
 template<Shape S, bool OPEN> static std::string runAssoc(int, const std::vector<Words>& ops, int idA, int idB, int hm) {
 	Runner<S, OPEN, 0> r; return r.run(ops, idA, idB, hm);
@@ -421,6 +448,10 @@ int main()
 #endif
 			puts(res.c_str()); continue;
 		}
+#endif
+#if GROUP == 2
+		if (head[0] == "mmk") { puts(runMMK<MMK>(head).c_str()); continue; }
+		if (head[0] == "mmko") { puts(runMMK<MMKO>(head).c_str()); continue; }
 #endif
 		std::string kind = head[0]; int ak = I(head, 1), idA = I(head, 2), idB = I(head, 3), hm = I(head, 4);
 		std::vector<Words> ops(segs.begin() + 1, segs.end());
